@@ -1,36 +1,84 @@
 (* C10 - what the model observes for an input, and the comparison with the
    implementation's observation.  Used by generated case shards. *)
-From Coq Require Import String.
+From Coq Require Import String Permutation.
 From TT Require Import Lib.Base Lib.Bytestr Model.StreamRec Spec.C10.
 
 (* short monomorphic constructors for the Gallina printer *)
 Definition E := @Ev nat.
 Definition R := @Rcd nat.
 
-Definition sum_obs (s : summary) : sumobs :=
-  {| so_run := s_run s; so_failures := s_failures s; so_errors := s_errors s; so_skipped := s_skipped s;
-     so_xfail := s_xfail s; so_uxs := s_uxsuccess s; so_ok := was_successful s |}.
+Definition sum_lists (s : summary) : sumlists :=
+  {| sl_run := s_run s; sl_failures := s_failures s; sl_errors := s_errors s; sl_skipped := s_skipped s;
+     sl_xfail := s_xfail s; sl_uxs := s_uxsuccess s |}.
 
+(* The model reports the incomplete tests in dict.popitem order (last inserted first), which is
+   one of the orders the statement allows. *)
 Definition model (i : input) : obs :=
-  {| o_dicts := consume parse10 (evs i);                 (* StreamToDict(on_test) *)
-     o_sum := sum_obs (summarize parse10 (evs i));       (* StreamSummary *)
-     o_ext := s2e_log parse10 (evs i) |}.                (* StreamToExtendedDecorator(ExtendedTestResult) *)
+  let es := evs i in
+  let es' := filter not_exists es in                                   (* StreamToExtendedDecorator.status drops 'exists' *)
+  {| o_dicts := consume_from parse10 false [] es;                      (* StreamToDict(on_test): the status() calls *)
+     o_flush := flush (tbl_after parse10 [] es);                       (* ... and stopTestRun *)
+     o_pre := sum_lists (fold_left gather (consume_from parse10 false [] es) summary0);      (* StreamSummary *)
+     o_sum := sum_lists (summarize parse10 es);
+     o_ok := was_successful (summarize parse10 es);
+     o_ext := [LStartRun] ++ flat_map replay (consume_from parse10 false [] es');            (* StreamToExtendedDecorator *)
+     o_extflush := flat_map replay (flush (tbl_after parse10 [] es')) ++ [LStopRun] |}.
 
-Definition sum_tuple (s : sumobs) :=
-  (so_run s, (so_failures s, (so_errors s, (so_skipped s, (so_xfail s, (so_uxs s, so_ok s)))))).
-Definition sum_eqb (a b : sumobs) : bool :=
-  pair_eqb Nat.eqb (pair_eqb ids_eqb (pair_eqb ids_eqb (pair_eqb ids_eqb (pair_eqb ids_eqb
-    (pair_eqb ids_eqb Bool.eqb))))) (sum_tuple a) (sum_tuple b).
+(* ---------- comparison of two observations ---------- *)
+(* Two observations are the same for C10 when they agree on everything the statement pins down:
+   - everything reported before stopTestRun, exactly (the tags() calls that reach the extended result are
+     not compared; the tags current at each outcome are part of LOutcome);
+   - what stopTestRun reports, as a multiset of whole tests: the dicts, the entries appended to each
+     StreamSummary list, the per-test blocks of calls on the extended result (each ending with stopTest),
+     followed by the same remainder (stopTestRun). *)
+Definition tail_perm {A} (n : nat) (a b : list A) : Prop :=
+  firstn n a = firstn n b /\ Permutation (skipn n a) (skipn n b).
+Definition tail_permb {A} (eqb : A -> A -> bool) (n : nat) (a b : list A) : bool :=
+  list_eqb eqb (firstn n a) (firstn n b) && perm_eqb eqb (skipn n a) (skipn n b).
 
-(* the tags() calls that reach the extended result are not compared (the tags
-   current at each outcome are part of LOutcome) *)
-Definition alpha (o : obs) : obs :=
-  {| o_dicts := o_dicts o; o_sum := o_sum o; o_ext := strip (o_ext o) |}.
+Definition sl_tuple (s : sumlists) :=
+  (sl_run s, (sl_failures s, (sl_errors s, (sl_skipped s, (sl_xfail s, sl_uxs s))))).
+Definition sl_eqb (a b : sumlists) : bool :=
+  pair_eqb Nat.eqb (pair_eqb ids_eqb (pair_eqb ids_eqb (pair_eqb ids_eqb (pair_eqb ids_eqb ids_eqb))))
+    (sl_tuple a) (sl_tuple b).
+
+Definition ext_blocks (log : list lev) : list (list lev) * list lev := blocks [] (strip log).
+
+(* the lists of a StreamSummary after stopTestRun: what was there before it (n entries) in order, the rest as a multiset *)
+Definition sum_equiv (pre fa fb : sumlists) : Prop :=
+  sl_run fa = sl_run fb
+  /\ tail_perm (List.length (sl_failures pre)) (sl_failures fa) (sl_failures fb)
+  /\ tail_perm (List.length (sl_errors pre)) (sl_errors fa) (sl_errors fb)
+  /\ tail_perm (List.length (sl_skipped pre)) (sl_skipped fa) (sl_skipped fb)
+  /\ tail_perm (List.length (sl_xfail pre)) (sl_xfail fa) (sl_xfail fb)
+  /\ tail_perm (List.length (sl_uxs pre)) (sl_uxs fa) (sl_uxs fb).
+Definition sum_equivb (pre fa fb : sumlists) : bool :=
+  Nat.eqb (sl_run fa) (sl_run fb)
+  && tail_permb Nat.eqb (List.length (sl_failures pre)) (sl_failures fa) (sl_failures fb)
+  && tail_permb Nat.eqb (List.length (sl_errors pre)) (sl_errors fa) (sl_errors fb)
+  && tail_permb Nat.eqb (List.length (sl_skipped pre)) (sl_skipped fa) (sl_skipped fb)
+  && tail_permb Nat.eqb (List.length (sl_xfail pre)) (sl_xfail fa) (sl_xfail fb)
+  && tail_permb Nat.eqb (List.length (sl_uxs pre)) (sl_uxs fa) (sl_uxs fb).
+
+Definition obs_equiv (a b : obs) : Prop :=
+  o_dicts a = o_dicts b
+  /\ Permutation (o_flush a) (o_flush b)
+  /\ o_pre a = o_pre b
+  /\ sum_equiv (o_pre a) (o_sum a) (o_sum b)
+  /\ o_ok a = o_ok b
+  /\ strip (o_ext a) = strip (o_ext b)
+  /\ Permutation (fst (ext_blocks (o_extflush a))) (fst (ext_blocks (o_extflush b)))
+  /\ snd (ext_blocks (o_extflush a)) = snd (ext_blocks (o_extflush b)).
 
 Definition obs_eqb (a b : obs) : bool :=
   list_eqb rec_eqb (o_dicts a) (o_dicts b)
-  && sum_eqb (o_sum a) (o_sum b)
-  && list_eqb lev_eqb (strip (o_ext a)) (strip (o_ext b)).
+  && perm_eqb rec_eqb (o_flush a) (o_flush b)
+  && sl_eqb (o_pre a) (o_pre b)
+  && sum_equivb (o_pre a) (o_sum a) (o_sum b)
+  && Bool.eqb (o_ok a) (o_ok b)
+  && list_eqb lev_eqb (strip (o_ext a)) (strip (o_ext b))
+  && perm_eqb (list_eqb lev_eqb) (fst (ext_blocks (o_extflush a))) (fst (ext_blocks (o_extflush b)))
+  && list_eqb lev_eqb (snd (ext_blocks (o_extflush a))) (snd (ext_blocks (o_extflush b))).
 
 Definition report := @report input obs model obs_eqb spec_okb findings.
 Definition model_at := @model_at input obs model spec_okb.
